@@ -223,6 +223,15 @@ fn valid_seed(subject: usize, rng: &mut Rng) -> Vec<u8> {
                 let list: Vec<Bytes> = (0..rng.below(4)).map(|i| Bytes::from(format!("msg-{}", i))).collect();
                 data = encode_message_batch(list).to_vec();
             }
+            if matches!(subject, 11 | 14) && rng.pct(40) {
+                // one-shot zstd frames declare their content size in the frame header (selium's own streaming
+                // compressor never does): a different header layout for the mutations to hit
+                let small = rng.pct(50);
+                if small {
+                    data.truncate(rng.below(24) as usize + 1);
+                }
+                return zstd::bulk::compress(&data, 3).unwrap_or_default();
+            }
             let name = match subject {
                 9 => "gzip/6",
                 10 => "zlib/6",
@@ -254,7 +263,7 @@ const SPECIAL_U64: &[u64] = &[0, 1, 2, 7, 8, 9, 255, 256, 65535, 65536, 1 << 20,
 pub fn gen_input(seed: u64, idx: u64) -> (usize, Vec<u8>, &'static str) {
     let mut rng = Rng::new(crate::common::mix(seed, idx));
     let subject = (idx % SUBJECTS.len() as u64) as usize;
-    let strategy = rng.below(10);
+    let strategy = rng.below(12);
     match strategy {
         0 => {
             let n = match rng.below(4) {
@@ -342,6 +351,82 @@ pub fn gen_input(seed: u64, idx: u64) -> (usize, Vec<u8>, &'static str) {
             let mut w = v[..k.min(v.len())].to_vec();
             w.extend(rng.rbytes(4));
             (subject, w, "short-header")
+        }
+        10 => {
+            // systematic poisoning of a *small* valid encoding: every offset × special value × width × byte order
+            // gets covered over a run (≈ 40 offsets × 21 values × 6 encodings)
+            let mut v = valid_seed(subject, &mut rng);
+            if v.len() > 48 {
+                v.truncate(48);
+            }
+            if v.is_empty() {
+                v.push(0);
+            }
+            let off = rng.usize(v.len());
+            let val = *rng.pick(SPECIAL_U64);
+            let enc: Vec<u8> = match rng.below(6) {
+                0 => val.to_le_bytes().to_vec(),
+                1 => val.to_be_bytes().to_vec(),
+                2 => (val as u32).to_le_bytes().to_vec(),
+                3 => (val as u32).to_be_bytes().to_vec(),
+                4 => (val as u16).to_le_bytes().to_vec(),
+                _ => vec![val as u8],
+            };
+            for (i, b) in enc.iter().enumerate() {
+                if off + i < v.len() {
+                    v[off + i] = *b;
+                } else {
+                    v.push(*b);
+                }
+            }
+            (subject, v, "systematic-field-poisoning")
+        }
+        11 => {
+            // format-aware adversarial headers for the decompressors
+            let val = *rng.pick(SPECIAL_U64);
+            let mut v: Vec<u8> = vec![];
+            match rng.below(3) {
+                0 => {
+                    // zstd: magic, frame header descriptor selecting a 1/2/4/8-byte content size (with or without the
+                    // single-segment flag), optional window descriptor, declared size, then a little body
+                    v.extend_from_slice(&[0x28, 0xb5, 0x2f, 0xfd]);
+                    let fcs = rng.below(4) as u8;
+                    let single = rng.pct(50);
+                    v.push((fcs << 6) | if single { 0x20 } else { 0 });
+                    if !single {
+                        v.push(rng.below(256) as u8);
+                    }
+                    let width = match fcs {
+                        0 => if single { 1 } else { 0 },
+                        1 => 2,
+                        2 => 4,
+                        _ => 8,
+                    };
+                    v.extend_from_slice(&val.to_le_bytes()[..width]);
+                    // a raw block header (last block, raw, size n) + n bytes
+                    let n = rng.below(8) as u32;
+                    let bh = 1 | (n << 3);
+                    v.extend_from_slice(&bh.to_le_bytes()[..3]);
+                    v.extend(rng.bytes(n as usize));
+                }
+                1 => {
+                    // gzip: header with FEXTRA / FNAME / FCOMMENT / FHCRC flags and a poisoned XLEN, then garbage
+                    v.extend_from_slice(&[0x1f, 0x8b, 0x08, rng.below(32) as u8, 0, 0, 0, 0, 0, 3]);
+                    v.extend_from_slice(&(val as u16).to_le_bytes());
+                    v.extend(rng.rbytes(20));
+                    v.extend_from_slice(&val.to_le_bytes());
+                }
+                _ => {
+                    // lz4 frame: magic, FLG with/without content-size bit, BD, declared size, header checksum guess
+                    v.extend_from_slice(&[0x04, 0x22, 0x4d, 0x18]);
+                    v.push(0x40 | if rng.pct(60) { 0x08 } else { 0 } | (rng.below(8) as u8) << 0 & 0x04);
+                    v.push([0x40u8, 0x50, 0x60, 0x70][rng.usize(4)]);
+                    v.extend_from_slice(&val.to_le_bytes());
+                    v.push(rng.below(256) as u8);
+                    v.extend(rng.rbytes(12));
+                }
+            }
+            (subject, v, "format-aware-header")
         }
         _ => {
             // the first bytes of another subject's valid encoding (type confusion)
